@@ -80,7 +80,7 @@ class Lifecycle:
         System.add_asset(asset)
         first = not any(a is asset and s is system for a, s in self.registrations)
         if first:
-            self.registrations.append((asset, system))
+            self.registrations.append([asset, system])
         if rec is not None and rec.get('asset') is asset:
             rec['also'] = system
         n = sum(1 for a in system.find_assets() if a is asset)
@@ -95,12 +95,20 @@ class Lifecycle:
     def asset_created(self, asset, phase):
         from simprocesd.model import System
         if phase != 'end':
+            # (registration order = the order in which the constructors START: an asset created by another one's
+            #  initialisation inside that one's constructor is registered after it)
+            self.registrations.append([asset, None])
             return
         s = System._instance
         running = bool(s is not None and s._simulation_is_initialized)
         rec = {'asset': asset, 'system': s, 'late': running, 'inits': self.by_id.get(id(asset), {}).get('inits', 0),
                'cls': type(asset).__name__, 'given': instrument.LAST_NAME_GIVEN}
-        self.registrations.append((asset, s))
+        for slot in reversed(self.registrations):
+            if slot[0] is asset and slot[1] is None:
+                slot[1] = s
+                break
+        else:
+            self.registrations.append([asset, s])
         prev = self.by_id.get(id(asset))
         if prev is not None and prev.get('asset') is asset:
             rec['inits'] = prev['inits']
@@ -727,6 +735,7 @@ def sequence_case(sh, i):
                     if s.env.now != t_before:
                         lc.fail('superseded_system_simulated', 'the rejected System advanced its clock')
             late = []
+            nested = []
             zombies = set()
 
             def failed_creation():
@@ -749,6 +758,18 @@ def sequence_case(sh, i):
                 if rng.random() < 0.35:
                     failed_creation()
                 late.extend(make_assets(rng, 'late', rng.randint(1, 4)))
+                # a user station that builds its own monitor when it is initialised - created while the simulation runs,
+                # so its initialisation (and the nested construction) happens inside its constructor
+                from simprocesd.model.factory_floor import PartHandler as _PH, Maintainer as _Mt
+
+                class StationWithCrew(_PH):
+                    def initialize(self, env):
+                        super().initialize(env)
+                        if not hasattr(self, 'crew'):
+                            self.crew = _Mt(name=f'{self.name}_crew')
+                st_ = StationWithCrew(name='late_station_with_crew', cycle_time=0.5)
+                late.append(st_)
+                nested.append((st_, getattr(st_, 'crew', None)))
             create_late.__name__ = 'create_late'
             runs = rng.choice([1, 2, 3])
             if 'between' in hand_when.values() and runs == 1:
@@ -791,6 +812,19 @@ def sequence_case(sh, i):
                 elif newest.env.now - t_hand >= 2:
                     sh.count('handed_over_lines_that_worked')
             pool = [a for a, s_ in lc.registrations if s_ is newest]
+            for st_, crew in nested:
+                sh.count('late_assets_whose_initialisation_creates_an_asset')
+                if crew is None or crew.env is not newest.env or not any(a is crew for a in newest.find_assets()):
+                    lc.fail('late_not_initialised', f'the asset created by the initialisation of late station {st_.name} '
+                            f'(itself created while the simulation runs) is not registered and initialised')
+            ids_ = {}
+            for a in pool:
+                if a.id in ids_ and ids_[a.id] is not a:
+                    lc.fail('asset_ids_not_unique', f'{type(a).__name__} {lc.name_of(a)!r} and {type(ids_[a.id]).__name__} '
+                            f'{lc.name_of(ids_[a.id])!r}, both registered with the active System, have the same id {a.id}: '
+                            f'find_assets(id_={a.id}) cannot return exactly one of them')
+                    break
+                ids_[a.id] = a
             names = sorted({lc.name_of(a) for a in pool})
             for _ in range(12):
                 q = {}
